@@ -390,6 +390,8 @@ class NPModel(NSModel):
             "argmax": B("np.argmax", lambda a, axis=None: native(np.argmax, self._concrete(a), axis)),
             "argmin": B("np.argmin", lambda a, axis=None: native(np.argmin, self._concrete(a), axis)),
             "searchsorted": B("np.searchsorted", lambda a, v, side="left": native(np.searchsorted, self._concrete(a), self._concrete(v), side)),
+            "iterable": B("np.iterable", lambda x: isinstance(x, (list, tuple, np.ndarray)) and not (isinstance(x, np.ndarray) and x.ndim == 0)),
+            "dstack": B("np.dstack", lambda arrs: native(np.dstack, self._common([to_array(a) for a in arrs]))),
             "isscalar": B("np.isscalar", lambda x: isinstance(x, (int, Q, T, bool, str))),
             "ndim": B("np.ndim", lambda a: to_array(a).ndim),
             "shape": B("np.shape", lambda a: to_array(a).shape),
@@ -1204,6 +1206,20 @@ def install_builtins(interp):
             raise
     b["getattr"] = B("getattr", getattr_)
     b["setattr"] = B("setattr", lambda v, n, x: interp.setattr(v, n, x))
+
+    def dir_(v):
+        names = set()
+        if isinstance(v, I.Obj):
+            names.update(v.fields)
+            for c in v.cls.mro():
+                names.update(c.ns)
+        elif isinstance(v, I.ClassV):
+            for c in v.mro():
+                names.update(c.ns)
+        else:
+            raise I.Unsupported("dir() of %s" % type(v).__name__)
+        return sorted(names)
+    b["dir"] = B("dir", dir_)
     b["property"] = B("property", lambda f: f)
     b["staticmethod"] = B("staticmethod", lambda f: f)
     b["classmethod"] = B("classmethod", lambda f: f)
